@@ -230,6 +230,11 @@ def run_probe(wd, tps, path_kind, out, witness, replay):
         for cb, payload, key in raw:
             if cb == 'log' and tp['mark'] and payload['msg'].startswith('[deep] ' + tp['mark']):
                 e.setdefault('log', []).append(key)
+                want = '[deep] ' + tp['args']['log_msg'].replace('{SCALE}', '3')
+                if tp['args']['log_msg'].startswith('mark') and payload['msg'] != want:
+                    out.violation('interpretation:log-text', 'tracepoint %s with log_msg %r logged %r, expected %r' % (
+                        tp['id'], tp['args']['log_msg'], payload['msg'], want), witness, replay)
+                    return None, None
             if cb == 'metric' and payload[1] == 'm_' + tp['id']:
                 e.setdefault('metric', []).append(key)
             if cb == 'span_open' and ((path_kind == 'wire' and payload['tp'] == tp['id'])):
@@ -380,7 +385,8 @@ def case_sampled(seed, out, spec, wd):
         if r.chance(0.2):
             args['stack_type'] = r.pick(['stack', 'no_stack', 'weird'])
         if r.chance(0.4):
-            args['log_msg'] = 'mark%d {SCALE}' % k
+            # (the text is the user's: blanks at either end of it are part of the message)
+            args['log_msg'] = 'mark%d {SCALE}' % k + r.pick(['', '', ' ', ' .', '\t', ' -> '])
         if r.chance(0.3):
             args['snapshot'] = r.pick(['no_collect', 'collect'])
         if r.chance(0.15):
